@@ -91,6 +91,7 @@ def setup() -> None:
                    + [v for v in vars(LX.TokenStream).values() if callable(v)])
     U.Lock = T.SimLock
     T.neutralise_real_locks()
+    T.install_threading_factories()
     _setup_done = True
 
 
